@@ -14,7 +14,8 @@ from harness import fixtures as fx
 from symex.api import obligation
 
 ASSUMPTIONS = ["universe: 2 lanelets (1 references sign 10 and light 11), sign, light, intersection 20 with incomings 21/22, "
-               "static 30, dynamic 31, phantom 32, environment 33 obstacle; colliding newcomers: lanelet 30, sign 1, "
+               "static 30, dynamic 31, phantom 32, environment 33 obstacle; start states: fully populated / partially populated with one generated id / "
+               "lanelet 1 referring to a sign id that is held by an obstacle instead of a sign; colliding newcomers: lanelet 30, sign 1, "
                "intersection 40 with incoming 31, sign 40, dynamic obstacle 21, environment obstacle 1, phantom 2, static 10, light 30; a replacement network (lanelet 5, sign 10)",
                "removal operations are applied only to objects currently contained (as the property states), except remove_obstacle, "
                "which the library documents as a warning-only no-op for unknown obstacles",
@@ -110,6 +111,10 @@ def _run(V, k, first=None, start="full"):
     if start == "partial":
         names = ("L1", "L2", "T11", "I20", "O31", "O32", "O33")
         m.l1_refs["S"] = set()
+    if start == "dangling":
+        # lanelet 1 refers to a sign id (10) that is not a sign of the network - as in cut-out maps - while a static obstacle
+        # holds that id
+        names = ("L1", "L2", "T11", "I20", "O31", "O32", "O33", "O10")
     for n in names:
         sc.add_objects(U.objs[n])
         m.inside[n] = set(U.ids[n])
@@ -207,7 +212,7 @@ def _mk(k, first, tier, start):
     return ob
 
 
-for _start in ("full", "partial"):
+for _start in ("full", "partial", "dangling"):
     for _i in range(len(OPS)):
         _mk(2, _i, "quick", _start)
     for _i in range(len(OPS)):
